@@ -462,9 +462,80 @@ func renameKeysCase(r *rng) MalType {
 	return call1("rename-keys", call1("quote", HashMap{Val: data}), call1("quote", HashMap{Val: ren}))
 }
 
+// argument kinds of the documented domains: most generated calls are in-domain (so that results, not
+// error handling, dominate), a fifth keeps random arguments (the out-of-domain stream)
+var collDomains = map[string][]string{
+	"cons": {"X", "S"}, "concat": {"S", "S", "S"}, "vec": {"S"}, "nth": {"S", "I"}, "first": {"S"}, "rest": {"S"}, "count": {"C"},
+	"empty?": {"C"}, "conj": {"C", "X", "X"}, "seq": {"S"}, "take": {"I", "S"}, "take-last": {"I", "S"}, "drop": {"I", "S"},
+	"drop-last": {"I", "S"}, "subvec": {"V", "I", "I"}, "range": {"I", "I"}, "hash-map": {"K", "X", "K", "X"}, "assoc": {"M", "K", "X", "K", "X"},
+	"dissoc": {"M", "K", "K"}, "get": {"M", "K"}, "contains?": {"M", "K"}, "merge": {"M", "M"}, "get-in": {"M", "P"},
+	"assoc-in": {"M", "P", "X"}, "set": {"S"}, "hash-set": {"K", "K"}, "=": {"X", "X"},
+}
+
+func collTyped(r *rng, kind string) MalType {
+	seqs := []MalType{vc(1, 2, 3), ls(4, 5), Vector{}, List{}, vc(kw("a"), kw("b")), vc(vc(1, 2), vc(3)), ls(nil, 1), nil, vc(7)}
+	maps := []MalType{HashMap{Val: map[string]MalType{kw("a"): 1, "k": nil}}, HashMap{Val: map[string]MalType{}},
+		HashMap{Val: map[string]MalType{kw("a"): HashMap{Val: map[string]MalType{kw("b"): vc(1, 2)}}}}, HashMap{Val: map[string]MalType{kw("a"): kw("b"), kw("c"): 3}}, nil}
+	switch kind {
+	case "S":
+		return seqs[r.intn(len(seqs))]
+	case "V":
+		return []MalType{vc(1, 2, 3), Vector{}, vc(1, 2, 3, 4, 5), vc(kw("a"))}[r.intn(4)]
+	case "M":
+		return maps[r.intn(len(maps))]
+	case "C":
+		if r.chance(1, 2) {
+			return seqs[r.intn(len(seqs))]
+		}
+		if r.chance(1, 3) {
+			return Set{Val: map[string]struct{}{kw("a"): {}, "k": {}}}
+		}
+		return maps[r.intn(len(maps))]
+	case "K":
+		return []MalType{kw("a"), kw("b"), "k", kw("c"), kw("z")}[r.intn(5)]
+	case "I":
+		return r.intn(6) - 1
+	case "P":
+		return []MalType{vc(kw("a")), vc(kw("a"), kw("b")), vc(kw("a"), kw("b"), 0), Vector{}, vc(kw("z"), kw("y"))}[r.intn(5)]
+	}
+	return collArg(r, 1)
+}
+
 func collCall(r *rng, depth int) MalType {
 	if r.chance(1, 25) {
 		return renameKeysCase(r)
+	}
+	if r.chance(3, 5) {
+		names := make([]string, 0, len(collDomains))
+		for _, b := range collBuiltins {
+			if _, ok := collDomains[b.name]; ok {
+				names = append(names, b.name)
+			}
+		}
+		name := names[r.intn(len(names))]
+		dom := collDomains[name]
+		n := len(dom)
+		if name == "concat" || name == "conj" || name == "hash-map" || name == "assoc" || name == "dissoc" || name == "hash-set" || name == "subvec" {
+			switch name {
+			case "hash-map":
+				n = 2 * r.intn(3)
+			case "assoc":
+				n = 3 + 2*r.intn(2)
+			case "subvec", "conj", "dissoc":
+				n = 2 + r.intn(2)
+			default:
+				n = r.intn(4)
+			}
+		}
+		items := []MalType{sy(name)}
+		for i := 0; i < n && i < len(dom); i++ {
+			if depth > 0 && r.chance(1, 5) && dom[i] != "I" && dom[i] != "K" && dom[i] != "P" {
+				items = append(items, collCall(r, depth-1))
+			} else {
+				items = append(items, call1("quote", collTyped(r, dom[i])))
+			}
+		}
+		return List{Val: items}
 	}
 	b := collBuiltins[r.intn(len(collBuiltins))]
 	n := b.arity[r.intn(len(b.arity))]
